@@ -739,7 +739,68 @@ func init() {
 			New:   func() Col { return &intervalCol{c: &proto.ColInterval{Scale: scale}} }})
 	}
 	addRawOf()
+	// Decimal(P, S) spellings (what a server prints), carried by the DecimalN columns through proto.Alias.
+	for _, ps := range [][2]int{{1, 0}, {9, 2}, {10, 3}, {18, 4}, {19, 4}, {38, 10}, {39, 5}, {76, 20}} {
+		p, sc := ps[0], ps[1]
+		name := fmt.Sprintf("Decimal(%d, %d)", p, sc)
+		width := 4
+		switch {
+		case p > 38:
+			width = 32
+		case p > 18:
+			width = 16
+		case p > 9:
+			width = 8
+		}
+		w := width
+		add(&Kind{Name: name, T: ref.Fixed(name, w), Scalar: "DecimalPS", Shape: "X", ZeroCopy: true, Value: bytesGen(w),
+			New: func() Col { return newAliasDecimal(name, w) }})
+	}
 }
+
+// aliasDecimalCol is a DecimalN column aliased to its Decimal(P, S) type name.
+type aliasDecimalCol struct {
+	col   proto.Column
+	w     int
+	app   func(b []byte)
+	rowFn func(i int) []byte
+}
+
+func newAliasDecimal(name string, w int) *aliasDecimalCol {
+	a := &aliasDecimalCol{w: w}
+	switch w {
+	case 4:
+		c := new(proto.ColDecimal32)
+		a.app = func(b []byte) { c.Append(proto.Decimal32(int32(leU(b)))) }
+		a.rowFn = func(i int) []byte { return le(4, uint64(uint32(c.Row(i)))) }
+		a.col = proto.Alias(c, proto.ColumnType(name))
+	case 8:
+		c := new(proto.ColDecimal64)
+		a.app = func(b []byte) { c.Append(proto.Decimal64(int64(leU(b)))) }
+		a.rowFn = func(i int) []byte { return le(8, uint64(c.Row(i))) }
+		a.col = proto.Alias(c, proto.ColumnType(name))
+	case 16:
+		c := new(proto.ColDecimal128)
+		a.app = func(b []byte) { c.Append(proto.Decimal128(u128(b))) }
+		a.rowFn = func(i int) []byte { return b128(proto.UInt128(c.Row(i))) }
+		a.col = proto.Alias(c, proto.ColumnType(name))
+	default:
+		c := new(proto.ColDecimal256)
+		a.app = func(b []byte) { c.Append(proto.Decimal256(u256(b))) }
+		a.rowFn = func(i int) []byte { return b256(proto.UInt256(c.Row(i))) }
+		a.col = proto.Alias(c, proto.ColumnType(name))
+	}
+	return a
+}
+
+func (a *aliasDecimalCol) Column() proto.Column { return a.col }
+func (a *aliasDecimalCol) Append(v ref.Val)     { a.app(v.([]byte)) }
+func (a *aliasDecimalCol) AppendBulk(vs []ref.Val) {
+	for _, v := range vs {
+		a.Append(v)
+	}
+}
+func (a *aliasDecimalCol) Row(i int) ref.Val { return a.rowFn(i) }
 
 type intervalCol struct{ c *proto.ColInterval }
 
